@@ -92,6 +92,7 @@ def evaluate(srcs, time_limit=1.0):
     out = []
     try:
         ctx = m.Context(time_limit=time_limit)
+        ctx.set("console", {"log": lambda *a: None})  # corpus programs print; keep the check's stdout clean
     except Exception as e:  # pragma: no cover
         return [["exc", type(e).__name__, str(e)[:80]]] * len(srcs)
     for s in srcs:
@@ -348,10 +349,11 @@ def compare_renderings(acc, base_src, var_src, kind, origin, stats, do_eval, bas
     rv = parse(var_src)
     case = {"sub": "layout", "kind": kind, "base": base_src, "variant": var_src, "origin": origin, "prelude": prelude}
     if rv[0] != "ok":
-        acc.viol("layout|%s|variant rejected|%s" % (kind, rv[1] if len(rv) > 1 else rv[0]), case, "accepted like the base rendering", list(rv)[:4], "layout")
+        # one bucket per kind of layout change: the parser's message depends on where the damage surfaces
+        acc.viol("layout|%s|variant rejected" % kind, case, "accepted like the base rendering", list(rv)[:4], "layout")
         return False
     if not E.tree_eq(rb[1], rv[1]):
-        acc.viol("layout|%s|different tree|%s" % (kind, _diff_sig(rb[1], rv[1])), case, "same tree", E.first_diff(rb[1], rv[1]), "layout")
+        acc.viol("layout|%s|different tree" % kind, case, "same tree", E.first_diff(rb[1], rv[1]), "layout")
         return False
     if do_eval:
         pre = [prelude] if prelude else []
@@ -692,7 +694,7 @@ def _blame_form(val, src, forms):
 
 def run_literals(chk, sw):
     quick = chk.tier == "quick"
-    n = 4000 if quick else 120000
+    n = 20000 if quick else 200000
     tasks = [(core.shard_seed(chk.seed, "C13", "num", s), BOUNDARY_NUMBERS if s == 0 else [], 500) for s in range(n // 500)]
     merge(chk, pool.run(task_numbers, tasks, timeout=600), "numbers")
     tasks = [(core.shard_seed(chk.seed, "C13", "str", s), 500, sw) for s in range(n // 500)]
